@@ -55,13 +55,26 @@ CACHED_CALLS = {'do_math', 'mix_support', 'rule_var'}
 SPARSE_FIELDS = {'linear'}
 
 
+SCALAR_ATTRS = {'shape', 'size', 'ndim', 'nnz', 'dtype', 'first', 'last', 'dim'}
+
+
+def _is_sparse_expr(expr):
+    """x.linear  or  x['linear']: a scipy sparse matrix by the package's naming convention."""
+    if isinstance(expr, ast.Attribute) and expr.attr in SPARSE_FIELDS:
+        return True
+    if isinstance(expr, ast.Subscript) and isinstance(expr.slice, ast.Constant) \
+            and expr.slice.value in SPARSE_FIELDS:
+        return True
+    return False
+
+
 def _is_basic_index(idx):
     """Basic (view-producing) numpy indexing: ints, slices, Ellipsis, None, tuples of those."""
     if isinstance(idx, ast.Slice):
         return True
     if isinstance(idx, ast.Constant) and (idx.value is None or idx.value is Ellipsis
-                                          or isinstance(idx.value, int)):
-        return True
+                                          or isinstance(idx.value, (int, str))):
+        return True           # int element / dict key: the stored object itself
     if isinstance(idx, ast.UnaryOp) and isinstance(idx.operand, ast.Constant):
         return True
     if isinstance(idx, ast.Tuple):
@@ -109,6 +122,26 @@ class FuncAccess(MustFlow):
 
     # ------------------------------------------------------------ may-alias bindings
     def _bind(self, target, value, elem=False):
+        if elem:
+            # iterate over a + b / list(a) / sorted(a) / reversed(a): elements of the operands
+            if isinstance(value, ast.BinOp) and isinstance(value.op, ast.Add):
+                self._bind(target, value.left, True)
+                self._bind(target, value.right, True)
+                return
+            if isinstance(value, ast.Call) and isinstance(value.func, ast.Name):
+                fn = value.func.id
+                if fn in ('list', 'tuple', 'sorted', 'reversed', 'iter') and len(value.args) == 1:
+                    self._bind(target, value.args[0], True)
+                    return
+                if fn == 'enumerate' and value.args and isinstance(target, (ast.Tuple, ast.List)) \
+                        and len(target.elts) == 2:
+                    self._bind(target.elts[1], value.args[0], True)
+                    return
+                if fn == 'zip' and isinstance(target, (ast.Tuple, ast.List)) \
+                        and len(target.elts) == len(value.args):
+                    for t, v in zip(target.elts, value.args):
+                        self._bind(t, v, True)
+                    return
         if isinstance(target, ast.Name):
             (self.elem_bindings if elem else self.bindings).setdefault(target.id, []).append(value)
         elif isinstance(target, (ast.Tuple, ast.List)):
@@ -147,7 +180,7 @@ class FuncAccess(MustFlow):
                     self._bind(g.target, g.iter, elem=True)
 
     # ------------------------------------------------------------------- origins (may)
-    def origins(self, expr, _seen=None):
+    def origins(self, expr, _seen=None, rebound=frozenset()):
         """Set of origin tuples.  First component: 'self', 'param:<n>', 'cached:<fn>',
         'call:<fn>', 'new:<Class>', 'fresh', 'global:<n>', 'unknown'."""
         _seen = _seen if _seen is not None else set()
@@ -159,7 +192,7 @@ class FuncAccess(MustFlow):
             out = set()
             if n == 'self' and self.is_method:
                 return {('self',)}
-            if n in self.params:
+            if n in self.params and n not in rebound:
                 out.add(('param:' + n,))
             for v in self.bindings.get(n, []):
                 out |= self.origins(v, _seen)
@@ -173,7 +206,9 @@ class FuncAccess(MustFlow):
                     out.add(('global:' + n,))
             return out
         if isinstance(expr, ast.Attribute):
-            base = self.origins(expr.value, _seen)
+            if expr.attr in SCALAR_ATTRS:
+                return {('fresh',)}       # immutable scalars / tuples
+            base = self.origins(expr.value, _seen, rebound)
             out = set()
             for o in base:
                 if o[0] == 'fresh':
@@ -184,10 +219,8 @@ class FuncAccess(MustFlow):
                     out.add(o + (expr.attr,))
             return out
         if isinstance(expr, ast.Subscript):
-            base = self.origins(expr.value, _seen)
-            p = attr_path(expr.value)
-            sparse = p is not None and p[-1] in SPARSE_FIELDS
-            if sparse or not _is_basic_index(expr.slice):
+            base = self.origins(expr.value, _seen, rebound)
+            if _is_sparse_expr(expr.value) or not _is_basic_index(expr.slice):
                 # copy semantics -- except containers (lists/dicts) indexed by a Name/constant,
                 # which _is_basic_index already treats as "view"
                 return {('fresh',)}
@@ -212,7 +245,7 @@ class FuncAccess(MustFlow):
         last = name.split('.')[-1]
         if isinstance(call.func, ast.Attribute):
             if last in CACHED_CALLS:
-                return {('cached:' + last,)}
+                return {('cached:' + ntext(call),)}
             if last in COPYING_METHODS:
                 return {('fresh',)}
             if last in VIEW_METHODS:
@@ -234,8 +267,9 @@ class FuncAccess(MustFlow):
     def _ctor_field(self, origin, attr, _seen):
         """origin = ('new:mod.Class', id(call)): which constructor argument ends up in .attr?"""
         call = self._calls_by_id().get(origin[1])
-        if call is None:
+        if call is None or ('ctor', origin[1], attr) in _seen or len(_seen) > 40:
             return {('fresh',)}
+        _seen = _seen | {('ctor', origin[1], attr)}
         ci = self.repo.cls(origin[0][4:])
         from .ctor import ctor_field_args
         exprs = ctor_field_args(self.repo, ci, call, attr)
@@ -259,10 +293,11 @@ class FuncAccess(MustFlow):
                 return True
             if isinstance(expr, ast.Attribute) and expr.attr in VIEW_ATTRS:
                 return self.is_fresh(expr.value, state)
+            if isinstance(expr, ast.Attribute) and expr.attr in SCALAR_ATTRS:
+                return True
             return False
         if isinstance(expr, ast.Subscript):
-            p = attr_path(expr.value)
-            if p is not None and p[-1] in SPARSE_FIELDS:
+            if _is_sparse_expr(expr.value):
                 return True
             if not _is_basic_index(expr.slice):
                 return True
@@ -312,6 +347,10 @@ class FuncAccess(MustFlow):
             fresh = self.is_fresh(node.value, state)
             for t in node.targets:
                 state = self._assign_target(t, node.value, fresh, state)
+                if isinstance(t, ast.Name) and t.id in self.params and not any(
+                        isinstance(x, ast.Name) and x.id == t.id for x in ast.walk(node.value)):
+                    # definitely re-bound to something that does not derive from the parameter
+                    state = state | {('rebound', t.id)}
             return state
         if isinstance(node, ast.AnnAssign) and node.value is not None:
             return self._assign_target(node.target, node.value,
@@ -388,7 +427,8 @@ class FuncAccess(MustFlow):
 
     def _emit(self, node, kind, target, state):
         fresh = self.is_fresh(target, state)
-        self.effects.append(Effect(node, kind, target, self.origins(target), fresh,
+        rebound = frozenset(f[1] for f in state if f[0] == 'rebound')
+        self.effects.append(Effect(node, kind, target, self.origins(target, None, rebound), fresh,
                                    self._cur_stmt))
 
 
